@@ -24,6 +24,7 @@ func init() {
 			c09R5(c, "C13.R6")
 			c08R2(c, "C13.R7")
 			ruleSyncAfterWrite(c, "C13.R8")
+			ruleOncePublication(c, "C13.R9")
 		},
 	})
 }
@@ -302,5 +303,74 @@ func c13R3(c *Ctx, id string) {
 			}
 		}
 		c.check(id+":bbolt.Open:flush-missing-freelist", open, open.Pos(), "when NoFreelistSync is off and the file has no persisted free list, Open commits one (empty) write transaction so the file can be opened by a sync-unaware reader; not otherwise", ok, detail)
+	})
+}
+
+// ruleOncePublication (C13.R9 / C03.R9 / C19.R6): the free list of a database opened without preloading is
+// built lazily by whichever transaction needs it first, concurrently with others; sync.Once is the only
+// synchronisation. Hence (a) a non-nil DB.freelist is stored only inside the body handed to freelistLoad.Do,
+// (b) the function that calls Do touches DB.freelist outside that body only after Do returned, and (c) the
+// integrity check reads DB.freelist only after loadFreelist() returned.
+func ruleOncePublication(c *Ctx, id string) {
+	c.rule(id, "freelist-published-through-once", 3, func() {
+		flF := c.dbField("freelist")
+		onceF := c.dbField("freelistLoad")
+		lf := c.fn("bbolt.(*DB).loadFreelist")
+		// the Do call and its body
+		var do ssa.CallInstruction
+		var body *ssa.Function
+		for _, ci := range callsIn(lf, "sync.(*Once).Do") {
+			if pathOf(ci.Common().Args[0]).Last() == onceF {
+				do = ci
+				body = closureOf(ci.Common().Args[1])
+			}
+		}
+		if do == nil || body == nil {
+			c.check(id+":(*DB).loadFreelist:once", lf, lf.Pos(), "loadFreelist runs its body through db.freelistLoad.Do", false, "no freelistLoad.Do(func) call found")
+			return
+		}
+		// (a) non-nil stores only inside the body (or functions only it calls — none today)
+		bad := ""
+		n := 0
+		for _, st := range storesToField(c.P.FnsIn(rootPkg), flF) {
+			if isNilConst(st.Val) {
+				continue
+			}
+			n++
+			if st.Instr.Parent() != body {
+				bad = fmt.Sprintf("DB.freelist is assigned in %s at %s, outside the Once body", shortFn(st.Instr.Parent()), c.P.Position(st.Instr.Pos()))
+			}
+		}
+		c.check(id+":DB.freelist:assigned-only-in-once-body", lf, do.Pos(), fmt.Sprintf("the %d non-nil assignment(s) of DB.freelist are inside the function handed to freelistLoad.Do", n), bad == "" && n >= 1, bad)
+		// (b) no access in loadFreelist outside the body before Do returned
+		bad = ""
+		eachInstr(lf, func(in ssa.Instruction) {
+			fa, ok := in.(*ssa.FieldAddr)
+			if !ok || fieldOfAddr(fa) != flF {
+				return
+			}
+			if !dominates(do, in) {
+				bad = fmt.Sprintf("loadFreelist reads or writes db.freelist at %s without having passed freelistLoad.Do: another goroutine may be half-way through building the list (the field is assigned before the list is filled)", c.P.Position(in.Pos()))
+			}
+		})
+		c.check(id+":(*DB).loadFreelist:no-access-before-Do", lf, do.Pos(), "outside the Once body, loadFreelist touches db.freelist only after freelistLoad.Do returned (Do is the only synchronisation between concurrent lazy loaders)", bad == "", bad)
+		// (c) tx.check: every access of db.freelist is dominated by the loadFreelist() call
+		ck := c.fn("bbolt.(*Tx).check")
+		calls := plainCallsIn(ck, "bbolt.(*DB).loadFreelist")
+		bad = ""
+		if len(calls) == 0 {
+			bad = "tx.check does not call db.loadFreelist()"
+		} else {
+			eachInstr(ck, func(in ssa.Instruction) {
+				fa, ok := in.(*ssa.FieldAddr)
+				if !ok || fieldOfAddr(fa) != flF {
+					return
+				}
+				if !dominates(calls[0], in) {
+					bad = fmt.Sprintf("tx.check touches db.freelist at %s before db.loadFreelist() returned", c.P.Position(in.Pos()))
+				}
+			})
+		}
+		c.check(id+":(*Tx).check:loads-before-use", ck, ck.Pos(), "the integrity check uses db.freelist only after db.loadFreelist() returned (read-only databases load it lazily)", bad == "", bad)
 	})
 }
